@@ -1,79 +1,69 @@
 (* C13 - Stream decoding is independent of how the io.Reader delivers bytes.
-   Statements only; proofs are in Proofs/C13P.v (adaptors, drive, document loop), Proofs/C13Json.v (the getJson
+   Statements only; proofs are in Proofs/C13P.v (schedules, adaptors, drive, document loop), Proofs/C13Json.v (the getJson
    scanner), Proofs/C13H.v (handlers, file readers), Proofs/C13Top.v (assembly, witnesses).
    Model: Model/Reader.v (tied to /repo by the correspondence check under scripted io.Readers), Model/Json.v.
    Spec: Spec/StreamSpec.v.
 
-   The faithful model VIOLATES the property for three kinds of legal input; each is a `_refuted` theorem below and a
-   line of KNOWN_FINDINGS.txt, and the positive theorems carry exactly the side condition that excludes it:
-     - `clean sc = true`  : the schedule has no (n>0, io.EOF) and no (0, nil) event
-     - `scan_safe v = true` : no key / string value ends with a backslash (and number texts are plain)
-     - `all_nonempty docs`  : no document decodes to an empty Map ({})
-   and the Raw value of the JSON readers is the marshalled text, not the bytes consumed (blanks are dropped). *)
+   The model follows /repo after the repairs a2b77a7 (adaptors / getJson use the count returned by Read), 419ac2a
+   (escape state in getJson), fd230a2 (m != nil in the loops), 9f7e6ef (no nil pointer from getJson).  What the earlier
+   rounds proved as `_refuted` ((n>0, io.EOF) loses a byte; (0, nil) re-delivers a stale byte; {"a":"x\\"} never closes;
+   {} documents skipped; lone } panics) now holds and is stated positively, for ALL legal schedules.  What remains:
+     - the adaptors under xml.Decoder give up with io.ErrNoProgress after 100 consecutive (0, nil) reads (as bufio does),
+       so the XML theorems carry `zero_bounded sc = true`; `C13_adaptor_no_progress` is the witness that this side
+       condition is exact.  getJson retries without bound: the JSON theorems hold for every legal schedule.
+     - the Raw value of the JSON readers is the document without the blanks around / inside it, not the bytes consumed
+       (`C13_json_raw_prefix_refuted`, KNOWN_FINDINGS key json-raw-whitespace). *)
 From Mxj Require Import Spec.StreamSpec Proofs.C13P Proofs.JsonP Proofs.C13Json Proofs.C13H Proofs.C13Top.
 Import ListNotations.
 
 (* ================================================================== the adaptors *)
 
-(* byteReader over any schedule without (n>0, EOF) / (0, nil) events: the bytes of the stream in order, then io.EOF forever *)
-Theorem C13_adaptor_transparent_byte : forall X sc n, legal X sc -> clean sc = true ->
-  map view_of (br_results n (my_byte_reader sc)) = transparent X n.
+(* byteReader over any legal schedule (every split, final data with io.EOF or before it, interspersed (0, nil)):
+   the bytes of the stream in order, then io.EOF forever *)
+Theorem C13_adaptor_transparent_byte : forall n X sc, legal X sc -> zero_bounded sc = true ->
+  br_results n sc = transparent X n.
 Proof. exact adaptor_transparent_br. Qed.
 Print Assumptions C13_adaptor_transparent_byte.
 
 (* teeReader likewise, and the tee buffer holds exactly the bytes handed to the decoder *)
-Theorem C13_adaptor_transparent_tee : forall X sc n, legal X sc -> clean sc = true ->
-  let '(rs, t) := tr_results n (my_tee_reader sc) in
-  map view_of rs = transparent X n /\ tr_w t = firstn n X.
+Theorem C13_adaptor_transparent_tee : forall n X sc w, legal X sc -> zero_bounded sc = true ->
+  let '(rs, t) := tr_results n {| tr_w := w; tr_r := sc |} in
+  rs = transparent X n /\ tr_w t = w ++ firstn n X.
 Proof. exact adaptor_transparent_tr. Qed.
 Print Assumptions C13_adaptor_transparent_tee.
 
-(* NOT TRUE for all legal schedules: *)
-Theorem C13_adaptor_transparent_refuted_data_eof :
-  exists X sc n, legal X sc /\ map view_of (br_results n (my_byte_reader sc)) <> transparent X n.
-Proof. exact adaptor_transparent_refuted_data_eof. Qed.
-Print Assumptions C13_adaptor_transparent_refuted_data_eof.
-Theorem C13_adaptor_transparent_refuted_zero :
-  exists X sc n, legal X sc /\ map view_of (br_results n (my_byte_reader sc)) <> transparent X n.
-Proof. exact adaptor_transparent_refuted_zero. Qed.
-Print Assumptions C13_adaptor_transparent_refuted_zero.
-Theorem C13_tee_transparent_refuted_data_eof :
-  exists X sc n, legal X sc /\ map view_of (fst (tr_results n (my_tee_reader sc))) <> transparent X n.
-Proof. exact tee_transparent_refuted_data_eof. Qed.
-Print Assumptions C13_tee_transparent_refuted_data_eof.
-Theorem C13_tee_transparent_refuted_zero :
-  exists X sc n, legal X sc /\
-    (map view_of (fst (tr_results n (my_tee_reader sc))) <> transparent X n /\
-     map view_of (fst (tr_results n (my_tee_reader sc))) <> map VByte (tr_w (snd (tr_results n (my_tee_reader sc))))).
-Proof. exact tee_transparent_refuted_zero. Qed.
-Print Assumptions C13_tee_transparent_refuted_zero.
+(* the side condition is exact: a legal schedule with 100 (0, nil) reads in a row ends in io.ErrNoProgress *)
+Theorem C13_adaptor_no_progress :
+  exists X sc n, legal X sc /\ br_results n sc <> transparent X n.
+Proof. exact adaptor_no_progress. Qed.
+Print Assumptions C13_adaptor_no_progress.
 
 (* ================================================================== the XML / sequence-XML readers, any decoder *)
 
 (* one call through the adaptor = the decoder over the bytes themselves; the reader is left exactly where the decoder stopped *)
-Theorem C13_reader_is_direct : forall (M : xmachine) X sc, legal X sc -> clean sc = true ->
+Theorem C13_reader_is_direct : forall (M : xmachine) X sc, legal X sc -> zero_bounded sc = true ->
   exists sc', new_map_xml_reader M sc = Some (fst (direct M (m_init M) X), sc') /\
-              legal (skipn (snd (direct M (m_init M) X)) X) sc' /\ clean sc' = true.
+              legal (skipn (snd (direct M (m_init M) X)) X) sc' /\ zero_bounded sc' = true.
 Proof. exact reader_is_direct. Qed.
 Print Assumptions C13_reader_is_direct.
 
 (* raw_prefix, single call: the Raw variant returns precisely the bytes consumed *)
-Theorem C13_raw_is_consumed : forall (M : xmachine) X sc, legal X sc -> clean sc = true ->
+Theorem C13_raw_is_consumed : forall (M : xmachine) X sc, legal X sc -> zero_bounded sc = true ->
   exists sc', new_map_xml_reader_raw M sc =
                 Some (fst (direct M (m_init M) X), firstn (snd (direct M (m_init M) X)) X, sc') /\
-              legal (skipn (snd (direct M (m_init M) X)) X) sc' /\ clean sc' = true.
+              legal (skipn (snd (direct M (m_init M) X)) X) sc' /\ zero_bounded sc' = true.
 Proof. exact raw_is_consumed. Qed.
 Print Assumptions C13_raw_is_consumed.
 
-(* schedule independence: any two such schedules of the same bytes give the same sequence of results (and raw values) *)
+(* schedule independence: any two legal schedules of the same bytes give the same sequence of results (and raw values) *)
 Theorem C13_read_docs_indep : forall (M : xmachine) X s1 s2, eof_is_error M ->
-  legal X s1 -> clean s1 = true -> legal X s2 -> clean s2 = true ->
+  legal X s1 -> zero_bounded s1 = true -> legal X s2 -> zero_bounded s2 = true ->
   read_docs (noraw (new_map_xml_reader M)) (S (length s1)) s1 =
   read_docs (noraw (new_map_xml_reader M)) (S (length s2)) s2.
 Proof. exact read_docs_indep. Qed.
 Print Assumptions C13_read_docs_indep.
 Theorem C13_read_docs_raw_indep : forall (M : xmachine) X s1 s2, eof_is_error M ->
-  legal X s1 -> clean s1 = true -> legal X s2 -> clean s2 = true ->
+  legal X s1 -> zero_bounded s1 = true -> legal X s2 -> zero_bounded s2 = true ->
   read_docs (new_map_xml_reader_raw M) (S (length s1)) s1 =
   read_docs (new_map_xml_reader_raw M) (S (length s2)) s2.
 Proof. exact read_docs_raw_indep. Qed.
@@ -82,7 +72,7 @@ Print Assumptions C13_read_docs_raw_indep.
 (* a stream of documents with arbitrary blanks: the documents decoded directly, in order, then io.EOF *)
 Theorem C13_read_docs_stream : forall (M : xmachine) ds tail sc,
   docs_ok M ds -> eof_on_blanks M -> blank tail = true ->
-  legal (stream ds tail) sc -> clean sc = true ->
+  legal (stream ds tail) sc -> zero_bounded sc = true ->
   read_docs (noraw (new_map_xml_reader M)) (S (length sc)) sc = expected M ds.
 Proof. exact read_docs_stream. Qed.
 Print Assumptions C13_read_docs_stream.
@@ -90,7 +80,7 @@ Print Assumptions C13_read_docs_stream.
 (* ... the Raw variant: each raw value is the blanks + document consumed by that call (no over-reading) ... *)
 Theorem C13_read_docs_raw_stream : forall (M : xmachine) ds tail sc,
   docs_ok M ds -> eof_on_blanks M -> blank tail = true ->
-  legal (stream ds tail) sc -> clean sc = true ->
+  legal (stream ds tail) sc -> zero_bounded sc = true ->
   read_docs (new_map_xml_reader_raw M) (S (length sc)) sc = expected_raw M ds tail.
 Proof. exact read_docs_raw_stream. Qed.
 Print Assumptions C13_read_docs_raw_stream.
@@ -100,21 +90,15 @@ Theorem C13_raw_prefix : forall (M : xmachine) ds tail,
 Proof. exact expected_raw_concat. Qed.
 Print Assumptions C13_raw_prefix.
 
-(* NOT TRUE for all legal schedules (a concrete decoder, two documents): *)
-Theorem C13_read_docs_refuted_data_eof :
+(* without the bound on (0, nil) runs the statement fails (a concrete decoder, two documents, 100 empty reads between them) *)
+Theorem C13_read_docs_no_progress :
   exists (M : xmachine) ds tail sc, docs_ok M ds /\ eof_on_blanks M /\ eof_is_error M /\ blank tail = true /\
     legal (stream ds tail) sc /\
     read_docs (noraw (new_map_xml_reader M)) (S (length sc)) sc <> expected M ds.
-Proof. exact read_docs_refuted_data_eof. Qed.
-Print Assumptions C13_read_docs_refuted_data_eof.
-Theorem C13_read_docs_refuted_zero :
-  exists (M : xmachine) ds tail sc, docs_ok M ds /\ eof_on_blanks M /\ eof_is_error M /\ blank tail = true /\
-    legal (stream ds tail) sc /\
-    read_docs (noraw (new_map_xml_reader M)) (S (length sc)) sc <> expected M ds.
-Proof. exact read_docs_refuted_zero. Qed.
-Print Assumptions C13_read_docs_refuted_zero.
+Proof. exact read_docs_no_progress. Qed.
+Print Assumptions C13_read_docs_no_progress.
 
-(* the reader functions always return (whatever the schedule), and NewMapJsonReader never panics *)
+(* the reader functions always return (whatever the schedule), and the JSON readers never panic *)
 Theorem C13_readers_total : forall (M : xmachine) nmj sc,
   new_map_xml_reader M sc <> None /\ new_map_xml_reader_raw M sc <> None /\
   get_json sc <> None /\ new_map_json_reader nmj sc <> None /\ new_map_json_reader_raw nmj sc <> None.
@@ -124,26 +108,30 @@ Theorem C13_json_reader_no_panic : forall nmj sc r sc', (forall b, nmj b <> Pani
   new_map_json_reader nmj sc = Some (r, sc') -> r <> Panic.
 Proof. exact json_reader_no_panic. Qed.
 Print Assumptions C13_json_reader_no_panic.
-(* ... but NewMapJsonReaderRaw does, on a lone closing brace *)
-Theorem C13_json_reader_raw_total_refuted :
-  exists sc, legal (s "}") sc /\ clean sc = true /\
-    forall nmj, new_map_json_reader_raw nmj sc = Some (Panic, [], []).
-Proof. exact json_reader_raw_panics. Qed.
-Print Assumptions C13_json_reader_raw_total_refuted.
+Theorem C13_json_reader_raw_no_panic : forall nmj sc r raw sc', (forall b, nmj b <> Panic) ->
+  new_map_json_reader_raw nmj sc = Some (r, raw, sc') -> r <> Panic.
+Proof. exact json_reader_raw_no_panic. Qed.
+Print Assumptions C13_json_reader_raw_no_panic.
+(* a lone closing brace is an error for the caller / errHandler (it was a nil-pointer panic before /repo 9f7e6ef) *)
+Theorem C13_json_reader_raw_lone_brace :
+  forall nmj, new_map_json_reader_raw nmj (file_schedule (s "}")) = Some (Err EOther, [], []).
+Proof. exact json_reader_raw_lone_brace. Qed.
+Print Assumptions C13_json_reader_raw_lone_brace.
 
 (* ================================================================== the JSON scanner *)
 
-(* json_scan_split: blanks, then the text json.Marshal writes for any object (strings with braces, quotes, backslashes
-   inside), then anything: getJson returns exactly the object's bytes and leaves the rest *)
-Theorem C13_json_scan_split : forall m w rest sc,
+(* json_scan_split: blanks, then the text encoding/json writes for ANY object of JSON types (either encoding; strings with
+   braces, quotes, backslashes, also a trailing escaped backslash), then anything - over EVERY legal schedule:
+   getJson returns exactly the object's bytes and leaves the rest *)
+Theorem C13_json_scan_split : forall eh m w rest sc,
   scan_safe (VMap m) = true -> blank w = true ->
-  legal (w ++ marshal (VMap m) ++ rest) sc -> clean sc = true ->
-  exists sc', get_json sc = Some (JOk (marshal (VMap m)), sc') /\ legal rest sc' /\ clean sc' = true.
+  legal (w ++ marshal eh (VMap m) ++ rest) sc ->
+  exists sc', get_json sc = Some (JOk (marshal eh (VMap m)), sc') /\ legal rest sc'.
 Proof. exact json_scan_split. Qed.
 Print Assumptions C13_json_scan_split.
 
-(* the scanner itself, for any text given as segments (blanks allowed outside literals): the kept bytes are the text
-   without those blanks *)
+(* the scanner itself, for any text given as segments (blanks allowed outside literals, literal bodies obeying JSON's
+   escape rule): the kept bytes are the text without those blanks *)
 Theorem C13_json_scan_object : forall w inner rest,
   blank w = true -> forallb seg_ok inner = true -> walk 1 inner = Some 1%Z ->
   direct jmachine jinit (w ++ obj_text inner ++ rest) =
@@ -151,130 +139,119 @@ Theorem C13_json_scan_object : forall w inner rest,
 Proof. exact scan_object. Qed.
 Print Assumptions C13_json_scan_object.
 
-(* NOT TRUE when a string ends with a backslash ({"a":"x\\"}): *)
-Theorem C13_json_scan_split_refuted :
-  exists m sc, legal (marshal (VMap m)) sc /\ clean sc = true /\
-    forall sc', get_json sc <> Some (JOk (marshal (VMap m)), sc').
-Proof. exact json_scan_split_refuted. Qed.
-Print Assumptions C13_json_scan_split_refuted.
-
 (* a stream of JSON objects: what NewMapJson makes of each object's bytes, in order, then io.EOF; the raw values are the
    objects' texts *)
-Theorem C13_json_read_docs_raw : forall nmj ds tail sc, jdocs_ok nmj ds -> blank tail = true ->
-  legal (jstream ds tail) sc -> clean sc = true ->
+Theorem C13_json_read_docs_raw : forall eh nmj ds tail sc, jdocs_ok eh nmj ds -> blank tail = true ->
+  legal (jstream eh ds tail) sc ->
   read_docs (new_map_json_reader_raw nmj) (S (length sc)) sc =
-  map (fun wm => (Ok (jdoc_val nmj (snd wm)), marshal (VMap (snd wm)))) ds ++ [(Err EEOF, [])].
+  map (fun wm => (Ok (jdoc_val eh nmj (snd wm)), marshal eh (VMap (snd wm)))) ds ++ [(Err EEOF, [])].
 Proof. exact json_read_docs_raw. Qed.
 Print Assumptions C13_json_read_docs_raw.
-Theorem C13_json_read_docs : forall nmj ds tail sc, jdocs_ok nmj ds -> blank tail = true ->
-  legal (jstream ds tail) sc -> clean sc = true ->
+Theorem C13_json_read_docs : forall eh nmj ds tail sc, jdocs_ok eh nmj ds -> blank tail = true ->
+  legal (jstream eh ds tail) sc ->
   read_docs (with_unit_raw (new_map_json_reader nmj)) (S (length sc)) sc =
-  map (fun wm => (Ok (jdoc_val nmj (snd wm)), [])) ds ++ [(Err EEOF, [])].
+  map (fun wm => (Ok (jdoc_val eh nmj (snd wm)), [])) ds ++ [(Err EEOF, [])].
 Proof. exact json_read_docs. Qed.
 Print Assumptions C13_json_read_docs.
 
 (* raw_prefix for JSON holds only without blanks between the documents ... *)
-Theorem C13_json_raw_prefix_partial : forall ds tail, Forall (fun wm => fst wm = []) ds ->
-  concat (map (fun wm : str * entries => marshal (VMap (snd wm))) ds) ++ tail = jstream ds tail.
+Theorem C13_json_raw_prefix_partial : forall eh ds tail, Forall (fun wm => fst wm = []) ds ->
+  concat (map (fun wm : str * entries => marshal eh (VMap (snd wm))) ds) ++ tail = jstream eh ds tail.
 Proof. exact json_raw_concat_tight. Qed.
 Print Assumptions C13_json_raw_prefix_partial.
-(* ... NOT in general: the raw value of ' {"a":1}' is not a prefix of the stream *)
+(* ... NOT in general (recorded finding json-raw-whitespace): the raw value of ' {"a":1}' is not a prefix of the stream *)
 Theorem C13_json_raw_prefix_refuted :
-  exists nmj ds tail sc, jdocs_ok nmj ds /\ blank tail = true /\ legal (jstream ds tail) sc /\ clean sc = true /\
-    prefixb (concat (map snd (read_docs (new_map_json_reader_raw nmj) (S (length sc)) sc))) (jstream ds tail) = false.
+  exists nmj ds tail sc, jdocs_ok true nmj ds /\ blank tail = true /\ legal (jstream true ds tail) sc /\
+    prefixb (concat (map snd (read_docs (new_map_json_reader_raw nmj) (S (length sc)) sc))) (jstream true ds tail) = false.
 Proof. exact json_raw_prefix_refuted. Qed.
 Print Assumptions C13_json_raw_prefix_refuted.
 
 (* ================================================================== bulk handlers and file readers *)
 
-(* mapHandler is invoked once per document, in order, up to and including the first call that returns false;
-   errHandler is never invoked; nil is returned *)
+(* mapHandler is invoked once per document (also for documents that decode to an empty Map), in order, up to and
+   including the first call that returns false; errHandler is never invoked; nil is returned *)
 Theorem C13_handle_xml_reader_raw : forall (M : xmachine) ds tail mh eh sc,
-  docs_ok M ds -> eof_on_blanks M -> blank tail = true -> all_nonempty (xml_docs M ds) ->
-  legal (stream ds tail) sc -> clean sc = true ->
+  docs_ok M ds -> eof_on_blanks M -> blank tail = true ->
+  legal (stream ds tail) sc -> zero_bounded sc = true ->
   exists rest, handle_xml_reader_raw M mh eh sc =
     Some {| h_calls := handler_calls mh 0 (xml_docs M ds); h_errs := 0; h_ret := Ok tt; h_rest := rest |}.
 Proof. exact handle_xml_raw_stream. Qed.
 Print Assumptions C13_handle_xml_reader_raw.
 Theorem C13_handle_xml_reader : forall (M : xmachine) ds tail mh eh sc,
-  docs_ok M ds -> eof_on_blanks M -> blank tail = true -> all_nonempty (xml_docs_noraw M ds) ->
-  legal (stream ds tail) sc -> clean sc = true ->
+  docs_ok M ds -> eof_on_blanks M -> blank tail = true ->
+  legal (stream ds tail) sc -> zero_bounded sc = true ->
   exists rest, handle_xml_reader M mh eh sc =
     Some {| h_calls := handler_calls mh 0 (xml_docs_noraw M ds); h_errs := 0; h_ret := Ok tt; h_rest := rest |}.
 Proof. exact handle_xml_stream. Qed.
 Print Assumptions C13_handle_xml_reader.
-Theorem C13_handle_json_reader_raw : forall nmj ds tail mh eh sc,
-  jdocs_ok nmj ds -> blank tail = true -> all_nonempty (json_docs nmj ds) ->
-  legal (jstream ds tail) sc -> clean sc = true ->
+Theorem C13_handle_json_reader_raw : forall e nmj ds tail mh eh sc,
+  jdocs_ok e nmj ds -> blank tail = true -> legal (jstream e ds tail) sc ->
   exists rest, handle_json_reader_raw nmj mh eh sc =
-    Some {| h_calls := handler_calls mh 0 (json_docs nmj ds); h_errs := 0; h_ret := Ok tt; h_rest := rest |}.
+    Some {| h_calls := handler_calls mh 0 (json_docs e nmj ds); h_errs := 0; h_ret := Ok tt; h_rest := rest |}.
 Proof. exact handle_json_raw_stream. Qed.
 Print Assumptions C13_handle_json_reader_raw.
-Theorem C13_handle_json_reader : forall nmj ds tail mh eh sc,
-  jdocs_ok nmj ds -> blank tail = true -> all_nonempty (json_docs_noraw nmj ds) ->
-  legal (jstream ds tail) sc -> clean sc = true ->
+Theorem C13_handle_json_reader : forall e nmj ds tail mh eh sc,
+  jdocs_ok e nmj ds -> blank tail = true -> legal (jstream e ds tail) sc ->
   exists rest, handle_json_reader nmj mh eh sc =
-    Some {| h_calls := handler_calls mh 0 (json_docs_noraw nmj ds); h_errs := 0; h_ret := Ok tt; h_rest := rest |}.
+    Some {| h_calls := handler_calls mh 0 (json_docs_noraw e nmj ds); h_errs := 0; h_ret := Ok tt; h_rest := rest |}.
 Proof. exact handle_json_stream. Qed.
 Print Assumptions C13_handle_json_reader.
 
 (* the file readers return the Maps (and raw values) of all documents *)
 Theorem C13_maps_from_xml_file_raw : forall (M : xmachine) ds tail,
-  docs_ok M ds -> eof_on_blanks M -> blank tail = true -> all_nonempty (xml_docs M ds) ->
+  docs_ok M ds -> eof_on_blanks M -> blank tail = true ->
   new_maps_from_xml_file_raw M (stream ds tail) = Some (xml_docs M ds, Ok tt).
 Proof. exact maps_from_xml_file_raw_stream. Qed.
 Print Assumptions C13_maps_from_xml_file_raw.
-Theorem C13_maps_from_json_file_raw : forall nmj ds tail,
-  jdocs_ok nmj ds -> blank tail = true -> all_nonempty (json_docs nmj ds) ->
-  new_maps_from_json_file_raw nmj (jstream ds tail) = Some (json_docs nmj ds, Ok tt).
+Theorem C13_maps_from_json_file_raw : forall e nmj ds tail,
+  jdocs_ok e nmj ds -> blank tail = true ->
+  new_maps_from_json_file_raw nmj (jstream e ds tail) = Some (json_docs e nmj ds, Ok tt).
 Proof. exact maps_from_json_file_raw_stream. Qed.
 Print Assumptions C13_maps_from_json_file_raw.
-
-(* NOT TRUE when a document decodes to an empty Map: {"a":1}{}{"a":1} gives two handler calls / two Maps *)
-Theorem C13_handler_refuted_empty_object :
-  exists nmj ds tail sc mh eh, jdocs_ok nmj ds /\ blank tail = true /\ legal (jstream ds tail) sc /\ clean sc = true /\
-    forall rest, handle_json_reader nmj mh eh sc <>
-      Some {| h_calls := handler_calls mh 0 (json_docs_noraw nmj ds); h_errs := 0; h_ret := Ok tt; h_rest := rest |}.
-Proof. exact handler_refuted_empty_object. Qed.
-Print Assumptions C13_handler_refuted_empty_object.
-Theorem C13_file_refuted_empty_object :
-  exists nmj ds tail, jdocs_ok nmj ds /\ blank tail = true /\
-    new_maps_from_json_file_raw nmj (jstream ds tail) <> Some (json_docs nmj ds, Ok tt).
-Proof. exact file_refuted_empty_object. Qed.
-Print Assumptions C13_file_refuted_empty_object.
 
 (* NOT PROVED: nothing of the property text is left unstated; what is assumed rather than proved is the environment
    (hypotheses eof_is_error / stops_at inside docs_ok / eof_on_blanks on the XML decoder, the oracle nmj for NewMapJson,
    file_schedule for *os.File), each exercised by the correspondence run. *)
 
-(* ================================================================== non-vacuity *)
+(* ================================================================== non-vacuity, and the former defects as examples *)
 
-(* the hypotheses on the decoder are satisfiable: the concrete decoder `toy` (documents <name>) meets all of them,
-   for every document name, and a three-document stream with blanks is read as specified from a schedule with
-   several trailing io.EOF events *)
+(* the hypotheses on the decoder are satisfiable: the concrete decoder `toy` (documents <name>) meets all of them *)
 Example C13_decoder_hypotheses_met :
   eof_is_error toy /\ eof_on_blanks toy /\ (forall name, no_gt name = true -> stops_at toy (toy_doc name)).
 Proof. split; [exact toy_eof_is_error|]. split; [exact toy_eof_on_blanks|exact toy_stops_at]. Qed.
 
+(* three documents with blanks, delivered with (0, nil) reads in between and the last byte together with io.EOF -
+   the two shapes that used to lose / duplicate bytes *)
 Definition ex_ds : list (str * str) := [(s " ", toy_doc (s "a")); (hx "0a09", toy_doc (s "bc")); ([], toy_doc (s "d"))].
-Definition ex_sc : list rev := map Data (stream ex_ds (s " ")) ++ [Eof; Eof].
+Definition ex_sc : list rev :=
+  map Data (s " <a") ++ [Zero; Zero] ++ map Data (hx "3e0a093c6263") ++ [Zero] ++ map Data (s "><d") ++ [DataEOF gt_c; Eof].
 Example C13_stream_nonvacuous :
-  docs_ok toy ex_ds /\ legal (stream ex_ds (s " ")) ex_sc /\ clean ex_sc = true /\
+  docs_ok toy ex_ds /\ legal (stream ex_ds []) ex_sc /\ zero_bounded ex_sc = true /\
   read_docs (new_map_xml_reader_raw toy) (S (length ex_sc)) ex_sc =
     [(Ok (VMap [(s "a", VStr [])]), s " <a>"); (Ok (VMap [(s "bc", VStr [])]), hx "0a093c62633e");
-     (Ok (VMap [(s "d", VStr [])]), s "<d>"); (Err EEOF, s " ")].
+     (Ok (VMap [(s "d", VStr [])]), s "<d>"); (Err EEOF, [])].
 Proof.
   split; [apply (toy_docs_ok [(s " ", s "a"); (hx "0a09", s "bc"); ([], s "d")]); repeat constructor|].
   split; [split; reflexivity|]. split; reflexivity.
 Qed.
 
-(* a JSON object whose strings contain braces, quotes, backslashes (not at the end) meets scan_safe, and is split off a
-   stream that continues with another object *)
+(* a JSON object whose strings contain braces, quotes, backslashes and END in a backslash (the former defect) meets
+   scan_safe, and is split off a stream that continues with another object, over a schedule with (0, nil) reads *)
 Definition ex_m : entries :=
-  [(s "k{", VStr (s "a}" ++ [dq] ++ s "b" ++ [bsl] ++ s "c" ++ [bsl; dq]));
-   (s "l", VList [VFlt (s "1"); VNil; VMap [(s "}", VBool true)]])].
+  [(s "k{", VStr (s "a}" ++ [dq] ++ s "b" ++ [bsl] ++ s "c" ++ [bsl; dq] ++ [bsl]));
+   (s "l", VList [VFlt (s "1"); VNil; VMap [(s "}" ++ [bsl], VBool true)]])].
 Example C13_json_nonvacuous :
   scan_safe (VMap ex_m) = true /\
-  get_json (file_schedule (s " " ++ marshal (VMap ex_m) ++ s "{}")) =
-    Some (JOk (marshal (VMap ex_m)), map Data (s "{}")).
+  get_json (Zero :: file_schedule (s " " ++ marshal false (VMap ex_m)) ++ [Zero; Data lbrace; DataEOF rbrace]) =
+    Some (JOk (marshal false (VMap ex_m)), [Zero; Data lbrace; DataEOF rbrace]).
 Proof. split; vm_compute; reflexivity. Qed.
+
+(* {} documents reach mapHandler (they were skipped before /repo fd230a2) *)
+Definition nmj_e (b : str) : res value :=
+  if str_eqb b (s "{}") then Ok (VMap []) else Ok (VMap [(s "a", VFlt (s "1"))]).
+Definition ds_empty : list (str * entries) := [([], [(s "a", VFlt (s "1"))]); ([], []); ([], [(s "a", VFlt (s "1"))])].
+Example C13_empty_object_handled :
+  jdocs_ok true nmj_e ds_empty /\
+  option_map (fun h => length (h_calls h))
+    (handle_json_reader nmj_e (fun _ _ => true) (fun _ => true) (file_schedule (jstream true ds_empty []))) = Some 3.
+Proof. split; [repeat constructor|reflexivity]. Qed.
